@@ -459,6 +459,9 @@ func (w *WAL) ReadAll() (metadata []byte, state raftpb.HardState, ents []raftpb.
 	w.start = walpb.Snapshot{}
 
 	w.metadata = metadata
+	// remember the last hard state like saveState does, so a segment cut after the
+	// reopen still writes it to the head of the new segment
+	w.state = state
 
 	if w.tail() != nil {
 		// create encoder (chain crc with the decoder), enable appending
